@@ -345,7 +345,7 @@ EditReturned(h, what) ==
 
 (* ---- next-state relations ------------------------------------------------ *)
 Families == { "access", "access1", "plot1", "areas", "trees", "plot", "data", "export", "derive", "chunk", "mutate", "edit", "copy",
-              "flags", "metrics", "all" }   \* "flags": cache/override variants; "metrics": non-default metrics
+              "flags", "metrics", "norec", "all" }   \* "flags": cache/override variants; "metrics": non-default metrics
 On(f) == f \in Focus \/ "all" \in Focus
 FlagVals(dflt) == IF On("flags") THEN BOOLEAN ELSE { dflt }
 MetricsOn(S) == IF On("metrics") THEN S ELSE S \ { "chebyshev" }
@@ -360,7 +360,7 @@ ReadOnly ==
   \E h \in Handles :
     \/ \E v \in AccessVars : Access(h, v)
     \/ On("areas") /\ \E a \in AreaArgs : ComputeAreas(h, a)
-    \/ On("trees") /\ \E k \in Kinds, s \in Systems, rec \in BOOLEAN :
+    \/ On("trees") /\ \E k \in Kinds, s \in Systems, rec \in (IF "norec" \in Focus THEN { FALSE } ELSE BOOLEAN) :
          \/ \E m \in MetricsOn(BallMetrics(s)) : GetTree("ball", h, k, s, m, rec)
          \/ \E m \in MetricsOn(KdMetrics(s)) : GetTree("kd", h, k, s, m, rec)
     \/ (On("plot") \/ On("plot1")) /\ \E pe \in PEs, pr \in Projs, cache \in FlagVals(TRUE), override \in FlagVals(FALSE) :
